@@ -840,3 +840,196 @@ Theorem return_origin n P e s st v e' st' :
 Proof.
   intros H. destruct (signal_inv_all n) as (Hs & _). apply Hs in H. destruct H as [_ H]. exact (H v eq_refl).
 Qed.
+
+(* ====================================================================== *)
+(* 5. C10 item 2: a function / handler body sees only parameters, its own  *)
+(*    locals and the globals                                               *)
+(* ====================================================================== *)
+
+(* the frame a call starts in *)
+Definition call_frame (fd : funcdef) (vals : list loc) : M frame :=
+  let* (fr, rest) := bind_params (fn_params fd) vals [] in
+  match fn_variadic fd with
+  | Some (vn, _) => let* a := alloc (HArr vals) in
+                    ret (if str_eqb vn underscore then fr else frame_set vn a fr)
+  | None => ret fr
+  end.
+
+(* the part of evalFunccall after the arguments have been evaluated, for a
+   user-defined function: no caller environment anywhere *)
+Definition call_user (f : nat) (P : program) (fd : funcdef) (vals : list loc) : M (option loc) :=
+  let* fr' := call_frame fd vals in
+  let* (sig, _) := exec_block f P [fr'] (fn_body fd) in
+  match sig with
+  | SigReturn v => ret v
+  | _ => let* l := alloc HNone in ret (Some l)
+  end.
+
+Definition call_dispatch (f : nat) (P : program) (e : env) (name : str) (vals : list loc) : M (option loc) :=
+  if str_eqb name n_test then let* _ := run_test vals in ret None
+  else
+    match builtin name e vals with
+    | Some m => m
+    | None =>
+        if existsb (str_eqb name) unmodelled_builtins then fail (EUnsupported name)
+        else match find_func name (p_funcs P) with
+             | None => crash "nil FuncDef"
+             | Some fd => call_user f P fd vals
+             end
+    end.
+
+(* pointwise version (no functional extensionality needed) *)
+Lemma eval_call_unfold f P e name args st :
+  eval_call (S f) P e name args st =
+  (let* vals := eval_exprs f P e args in call_dispatch f P e name vals) st.
+Proof.
+  cbn [eval_call].
+  destruct (eval_exprs f P e args st) as [[vals|x] st1] eqn:E;
+    [rewrite !(bindM_ok _ _ _ _ _ E) | rewrite !(bindM_er _ _ _ _ _ E); reflexivity].
+  unfold call_dispatch.
+  destruct (str_eqb name n_test); [reflexivity|].
+  destruct (builtin name e vals); [reflexivity|].
+  destruct (existsb (str_eqb name) unmodelled_builtins); [reflexivity|].
+  destruct (find_func name (p_funcs P)) as [fd|]; [|reflexivity].
+  unfold call_user, call_frame, bindM.
+  destruct (bind_params (fn_params fd) vals [] st1) as [[[fr rest]|x] st2]; [|reflexivity].
+  destruct (fn_variadic fd) as [[vn vt]|]; reflexivity.
+Qed.
+
+(* whether a name is a built-in does not depend on the environment or the
+   arguments (one lemma, uniform over the [if name_is ...] chain of [builtin]) *)
+Lemma builtin_none_indep name e vals e' vals' :
+  builtin name e vals = None -> builtin name e' vals' = None.
+Proof.
+  unfold builtin.
+  repeat match goal with
+         | |- (if ?b then Some _ else _) = None -> _ => destruct b; [discriminate|]
+         end.
+  intros _; reflexivity.
+Qed.
+
+Definition resolves_to (P : program) (name : str) (fd : funcdef) : Prop :=
+  str_eqb name n_test = false /\ builtin name [] [] = None /\
+  existsb (str_eqb name) unmodelled_builtins = false /\
+  find_func name (p_funcs P) = Some fd.
+
+Lemma call_dispatch_user f P e name vals fd :
+  resolves_to P name fd -> call_dispatch f P e name vals = call_user f P fd vals.
+Proof.
+  intros (H1 & H2 & H3 & H4). unfold call_dispatch.
+  rewrite H1, (builtin_none_indep _ _ _ e vals H2), H3, H4. reflexivity.
+Qed.
+
+(* evalFunccall of a user function = evaluate the arguments in the caller's
+   environment, then run [call_user], which does not mention that environment *)
+Theorem eval_call_user f P e name args fd st :
+  resolves_to P name fd ->
+  eval_call (S f) P e name args st =
+  (let* vals := eval_exprs f P e args in call_user f P fd vals) st.
+Proof.
+  intro R. rewrite eval_call_unfold. unfold bindM.
+  destruct (eval_exprs f P e args st) as [[vals|x] st1]; [|reflexivity].
+  rewrite (call_dispatch_user _ _ _ _ _ _ R). reflexivity.
+Qed.
+
+Theorem call_sees_only_params_locals_globals f P name args fd e1 e2 st :
+  resolves_to P name fd ->
+  eval_exprs f P e1 args st = eval_exprs f P e2 args st ->
+  eval_call (S f) P e1 name args st = eval_call (S f) P e2 name args st.
+Proof.
+  intros R E. rewrite !(eval_call_user _ _ _ _ _ _ _ R). unfold bindM. rewrite E. reflexivity.
+Qed.
+
+(* the caller continues in its own environment: a call statement returns it unchanged *)
+Theorem call_stmt_keeps_env n P e name args st sig e' st' :
+  exec_stmt n P e (SCallStmt name args) st = (Ok (sig, e'), st') -> sig = SigNone /\ e' = e.
+Proof.
+  destruct n as [|f]; [discriminate|]. cbn [exec_stmt]. intro H.
+  apply bindM_inv in H as (u & st0 & _ & H). apply bindM_inv in H as (r & st1 & _ & H).
+  inversion H; subst. split; reflexivity.
+Qed.
+
+(* return: the call turns SigReturn v into the value v, anything else into a fresh none *)
+Lemma call_user_return f P fd vals st fr st1 v e2 st2 :
+  call_frame fd vals st = (Ok fr, st1) ->
+  exec_block f P [fr] (fn_body fd) st1 = (Ok (SigReturn v, e2), st2) ->
+  call_user f P fd vals st = (Ok v, st2).
+Proof. intros H1 H2. unfold call_user. rewrite (bindM_ok _ _ _ _ _ H1), (bindM_ok _ _ _ _ _ H2). reflexivity. Qed.
+
+Lemma call_user_no_return f P fd vals st fr st1 sig e2 st2 :
+  call_frame fd vals st = (Ok fr, st1) ->
+  exec_block f P [fr] (fn_body fd) st1 = (Ok (sig, e2), st2) ->
+  (forall v, sig <> SigReturn v) ->
+  call_user f P fd vals st = (let* l := alloc HNone in ret (Some l)) st2.
+Proof.
+  intros H1 H2 N. unfold call_user. rewrite (bindM_ok _ _ _ _ _ H1), (bindM_ok _ _ _ _ _ H2).
+  destruct sig; try reflexivity. exfalso; exact (N v eq_refl).
+Qed.
+
+(* the initial frame of the body contains parameter names only *)
+Lemma bind_params_names ps : forall args fr,
+  post (bind_params ps args fr) (fun r => incl (names (fst r)) (map fst ps ++ names fr)).
+Proof.
+  induction ps as [|[n t] ps IH]; intros args fr; simpl.
+  - apply post_ret. simpl. apply incl_refl.
+  - destruct args as [|a rest]; [apply post_crash|].
+    eapply post_weaken; [apply IH|]. intros r H x Hx. apply H in Hx.
+    apply in_app_or in Hx as [Hx|Hx]; [right; apply in_or_app; left; exact Hx|].
+    destruct (str_eqb n underscore); [right; apply in_or_app; right; exact Hx|].
+    destruct (frame_set_names n a fr) as [E|E]; rewrite E in Hx.
+    + right; apply in_or_app; right; exact Hx.
+    + destruct Hx as [<-|Hx]; [left; reflexivity | right; apply in_or_app; right; exact Hx].
+Qed.
+
+Definition param_names (fd : funcdef) : list str :=
+  map fst (fn_params fd) ++ match fn_variadic fd with Some (vn, _) => [vn] | None => [] end.
+
+Theorem call_frame_names fd vals : post (call_frame fd vals) (fun fr => incl (names fr) (param_names fd)).
+Proof.
+  unfold call_frame, param_names. eapply post_bind; [apply bind_params_names|].
+  intros [fr rest] H; simpl in H. rewrite app_nil_r in H.
+  destruct (fn_variadic fd) as [[vn vt]|].
+  - apply post_bind_any; intro a. apply post_ret.
+    destruct (str_eqb vn underscore); [apply incl_appl; exact H|].
+    destruct (frame_set_names vn a fr) as [E|E]; rewrite E.
+    + apply incl_appl; exact H.
+    + intros x [<-|Hx]; [apply in_or_app; right; left; reflexivity | apply in_or_app; left; apply H; exact Hx].
+  - apply post_ret. rewrite app_nil_r. exact H.
+Qed.
+
+(* event handlers: same structure, no caller environment at all *)
+Definition handler_run (fuel : nat) (P : program) (h : handler) (args : list payload) : M unit :=
+  let* fr := bind_payload (h_params h) args [] in
+  let* _ := exec_block fuel P [fr] (h_body h) in ret tt.
+
+Theorem handle_event_unfold fuel P name args s0 :
+  handle_event fuel P name args s0 =
+  match find_handler name (p_handlers P) with
+  | None => (OErr (EHostCrash (s_ "no event handler")), s0)
+  | Some h => match handler_run fuel P h args s0 with
+              | (Er e, s1) => (OErr e, s1)
+              | (Ok _, s1) => (ODone, s1)
+              end
+  end.
+Proof. reflexivity. Qed.
+
+Lemma bind_payload_names ps : forall args fr,
+  post (bind_payload ps args fr) (fun r => incl (names r) (map fst ps ++ names fr)).
+Proof.
+  induction ps as [|[n t] ps IH]; intros args fr; simpl.
+  - apply post_ret. simpl. apply incl_refl.
+  - destruct args as [|a rest]; [apply post_crash|].
+    apply post_bind_any; intro l.
+    eapply post_weaken; [apply IH|]. intros r H x Hx. apply H in Hx.
+    apply in_app_or in Hx as [Hx|Hx]; [right; apply in_or_app; left; exact Hx|].
+    destruct (str_eqb n underscore); [right; apply in_or_app; right; exact Hx|].
+    destruct (frame_set_names n l fr) as [E|E]; rewrite E in Hx.
+    + right; apply in_or_app; right; exact Hx.
+    + destruct Hx as [<-|Hx]; [left; reflexivity | right; apply in_or_app; right; exact Hx].
+Qed.
+
+Theorem handler_frame_names h args :
+  post (bind_payload (h_params h) args []) (fun fr => incl (names fr) (map fst (h_params h))).
+Proof.
+  eapply post_weaken; [apply bind_payload_names|]. intros fr H. simpl in H. rewrite app_nil_r in H. exact H.
+Qed.
